@@ -292,7 +292,11 @@ void run_virtual(const uint8_t h[], size_t es)
     const bool present = V.target < V.n;
     if (what == 3) {
         // 2^30+ callback calls cost seconds: only when the header says so
-        if (V.n > ((size_t)1 << 26) && !(h[4] & 0x80)) { CNT("noop.virt_reverse_big"); TRACE("virtual reverse of %zu elements: skipped (flag)", V.n); return; }
+        bool big_ok = (h[4] & 0x80) != 0;
+#ifdef VERIF_FUZZ
+        big_ok = false;       // (a coverage-instrumented build needs minutes for 2^32 callbacks: G1/G2 run these, libFuzzer does not)
+#endif
+        if (V.n > ((size_t)1 << 26) && !big_ok) { CNT("noop.virt_reverse_big"); TRACE("virtual reverse of %zu elements: skipped (flag)", V.n); return; }
         g_cur_op = "raw_array_reverse(virtual)";
         TRACE("virtual array: %zu elements of %zu bytes; reverse", V.n, V.es);
         LIB(cstl_raw_array_reverse((void *)V.base, V.n, V.es, virt_swap, tmp_obj));
@@ -310,6 +314,9 @@ void run_virtual(const uint8_t h[], size_t es)
         // linear find costs target+1 calls (all n when absent): keep it bounded
         size_t cost = present ? V.target : V.n;
         bool allowed = cost <= ((size_t)1 << 22) || ((h[4] & 0x80) && (cost <= ((size_t)1 << 28) || (cost <= ((size_t)1 << 32) + 8 && h[8] < 8)));
+#ifdef VERIF_FUZZ
+        allowed = cost <= ((size_t)1 << 22);
+#endif
         if (!allowed) { CNT("noop.virt_find_far"); TRACE("virtual find: skipped (would make %zu callback calls)", cost); return; }
         g_cur_op = "raw_array_find(virtual)";
         LIB(r = cstl_raw_array_find((const void *)V.base, V.n, V.es, V.probe, virt_cmp, &V));
